@@ -7,6 +7,7 @@ at the same position).
 """
 import random
 
+import headfrag
 import tokprops
 import vlib
 
@@ -18,6 +19,7 @@ def run(tier, seed):
                         "non-trivial = input contains markup characters or produced a non-Text token; distinct by (text, context, skip)",
                         builder_tie=True)
     _collisions(c, tier, seed)
+    headfrag.run(c, tier, seed, ())
     c.assumptions += ["tokenizer totality is validated by testing, not proved (PARTIAL, see DESIGN.md C02)"]
     return c.finish()
 
